@@ -599,6 +599,64 @@ def r6_scaled_value_scaled_error(ctx):
     ctx.floor("magnitude constructions scanned", n, 8)
 
 
+def r8_stated_uncertainty_reaches_the_object(ctx):
+    """abse(x) / rele(x) with an argument set the uncertainty.  The setter of Magnitude either writes self.error (then a
+    caller may discard what it returns) or hands back a new object (then every caller has to keep the result).  The
+    contract is read from the setter paths of Magnitude.abse/rele and compared with every call site in units/ that
+    passes an argument to `<...magnitude>.abse(..)` / `.rele(..)`: a discarded result of a non-writing setter drops the
+    uncertainty the user stated."""
+    from ..flowexpr import paths
+    what = "an uncertainty handed to abse(x)/rele(x) is kept: the setter writes self.error or its result is used"
+    mc = ctx.repo.cls(MAG, "Magnitude")
+    ms = methods(mc)
+    writes = {}
+    for name in ("abse", "rele"):
+        fn = ms.get(name)
+        if fn is None:
+            ctx.unrecognised(MAG, f"Magnitude.{name}", what, "setter missing")
+            continue
+        ctx.functions_analysed.add(f"{MAG}::Magnitude.{name}")
+        pa = [a.arg for a in fn.args.args]
+        par = pa[1] if len(pa) > 1 else name
+        setter = []
+        for q in paths(fn):
+            tt = [e for e in q.events if e.kind == "test" and isinstance(e.resolved, ast.AST) and norm(e.resolved) in (f"{par} is None", f"{par} is not None")]
+            if not tt:
+                continue
+            given = all((e.extra is False) if norm(e.resolved) == f"{par} is None" else (e.extra is True) for e in tt)
+            if given:
+                setter.append(any(e.kind == "store" and e.extra == "self.error" for e in q.events))
+        if not setter:
+            ctx.unrecognised(MAG, f"Magnitude.{name}", what, f"no path with `{par}` given")
+            continue
+        writes[name] = all(setter)
+    n = 0
+    for rel in ctx.repo.all_py("src/scinumtools/units"):
+        try:
+            mod = ctx.repo.module(rel)
+        except Exception:
+            continue
+        for st in ast.walk(mod.tree):
+            if not (isinstance(st, ast.Expr) and isinstance(st.value, ast.Call)):
+                continue
+            c = st.value
+            if not (isinstance(c.func, ast.Attribute) and c.func.attr in writes and (c.args or c.keywords)):
+                continue
+            recv = norm(c.func.value)
+            if not recv.split(".")[-1].endswith("magnitude"):
+                continue
+            n += 1
+            from ..model import enclosing_function, qualname
+            f = enclosing_function(st)
+            q = qualname(f) if f is not None else "<module>"
+            if writes[c.func.attr]:
+                ctx.holds(rel, q, what, detail=norm(c)[:80])
+            else:
+                ctx.violated(rel, q, what, detail=f"{norm(c)[:80]} as a statement, while Magnitude.{c.func.attr}(x) returns a new object and leaves self.error as it was",
+                             expected=f"{recv} = {norm(c)[:60]}  (or a setter that writes self.error)")
+    ctx.floor("setter calls with a discarded result", n + (0 if all(writes.values()) else 1), 1)
+
+
 def r7_operand_errors_intact(ctx):
     _C07.r1_no_operand_mutation(ctx)
 
@@ -611,4 +669,5 @@ RULES = [
     ("C08.R6", "no Magnitude is rebuilt from another one's value times a factor while passing that one's error through unscaled (scaling goes through Magnitude arithmetic)", r6_scaled_value_scaled_error),
     ("C08.R5", "unit conversion: value x*f1/f2 (linear) or rule(x*f1)/f2; on the linear path the error is scaled by the same factors, None stays None", r5_conversion),
     ("C08.R7", "propagation never rewrites the uncertainty of an operand in place (effect analysis shared with C07.R1)", r7_operand_errors_intact),
+    ("C08.R8", "an uncertainty handed to abse(x)/rele(x) is kept: the setter writes self.error, or no call site discards its result", r8_stated_uncertainty_reaches_the_object),
 ]
